@@ -66,6 +66,9 @@ CLAIMED.update({
  "C06": C("property-based testing with trait-generic oracles: generated mutated states of all six graph types, ~20 adaptor views each, every visit trait compared with the expected (reversed / symmetrised / induced / restricted) abstract graph",
           "States of Graph (renumbered), StableGraph (vacancies), GraphMap, MatrixGraph (reused ids), Csr and adj::List and their Reversed / UndirectedAdaptor / NodeFiltered / EdgeFiltered / Frozen / reference views up to depth 2 are checked trait by trait (identifiers, references, index maps, neighbours, incident edges with orientation, adjacency matrix, visit maps, DataMap) against the expected abstract graph.",
           "the generic checkers and expected-graph derivations in props/c06.rs", "DESIGN.md section 5, C06"),
+ "C07": C("differential / metamorphic property-based testing: one generated abstract graph in up to 12 encodings (types, index widths, insertion orders, vacancies, relabelings); ~30 algorithms; answers translated to labels and compared",
+          "Every algorithm and walker is run on every encoding of the same abstract graph that satisfies its trait bounds; canonicalised answers must agree (equal where unique, equally valid/optimal otherwise) and a panic on one encoding while another succeeds is a violation.",
+          "the encoders in agraph.rs and the canonicalisation in props/c07.rs; correctness of the common answer is C08-C16/C20's job", "DESIGN.md section 5, C07"),
 })
 PLANNED = {}
 
